@@ -15,7 +15,7 @@ EXPLANATION = (
     "create(r)<->remove(r).  R11.2: the composite undoes in the reverse of do order.  R11.3: history stack "
     "discipline -- emptiness guard dominates undo/redo, do clears redo and trims after every append, each "
     "_perform_* iteration moves exactly one element between the stacks.  R11.4: the dependency test is symmetric in "
-    "containment.  Decides inverse *shape*, not content equality of trees."
+    "containment.  R11.5: undo(drop=True) deletes exactly the N redo entries it just created.  Decides inverse *shape*, not content equality of trees."
 )
 ASSUMPTIONS = ["_ResourceOperations primitives do what their names say (C13/C16 check notify and codec separately)"]
 
@@ -219,6 +219,36 @@ def check(ctx, res) -> None:
                 f"History.{mname} does not move exactly one element {src}->{dst} per iteration "
                 f"({len(moves)} pop/append pair(s), {len(body_muts)} list mutation(s))")
 
+    # ---- R11.5 undo(drop=True) drops exactly the changes it moved to the redo list
+    m = hist.methods["undo"]
+    cfg = CFG(m.node)
+    counts = [norm(c.args[0]) for c in calls_in(m.node) if is_self_attr(c.func) and c.func.attr.startswith("_perform") and c.args]
+    drop_nodes = []
+    for n in cfg.nodes:
+        if n.kind == "stmt" and n.ast is not None and any(canon(e) == red for e in common.mutated_exprs(n.ast)):
+            if any(isinstance(t, ast.Name) and t.id == "drop" and pol for t, pol in cfg.guards(n.id)):
+                drop_nodes.append(n)
+    if not counts:
+        raise AnalysisError("anchor=History.undo count passed to _perform_undos not found")
+    if not drop_nodes:
+        res.fail("R11.5", "History.undo|drop", m.where,
+                 "History.undo(drop=True) no longer removes the undone changes from the redo list: dropped changes stay redoable")
+    for n in drop_nodes:
+        ok = None
+        a = n.ast
+        if isinstance(a, ast.Delete) and len(a.targets) == 1 and isinstance(a.targets[0], ast.Subscript) \
+                and isinstance(a.targets[0].slice, ast.Slice):
+            sl = a.targets[0].slice
+            lower = sl.lower
+            ok = sl.upper is None and sl.step is None and isinstance(lower, ast.UnaryOp) and isinstance(lower.op, ast.USub) \
+                and norm(lower.operand) in counts
+        elif any(isinstance(c.func, ast.Attribute) and c.func.attr in ("remove", "pop") and canon(c.func.value) == red for c in calls_in(a)):
+            ok = False  # removes a single element, while len(dependencies) elements were moved
+        res.add("R11.5", "History.undo|drop", ok, f"{m.unit.rel}:{n.lineno}",
+                "drop deletes the last N redo entries where N is the number of changes just undone" if ok else
+                "History.undo(change, drop=True) does not delete exactly the N entries it just moved to the redo list (N = number of dependent "
+                "changes undone): dependents of the dropped change stay redoable on a base that no longer exists, so redo/undo stop being inverses")
+    # the returned list is the same slice
     # ---- R11.4 symmetric containment
     dep = idx.need_func("rope.base.history._FindChangeDependencies._depends_on")
     pairs = set()
